@@ -38,7 +38,7 @@ import json, os
 
 META = {
  "engine": "tla-schema",
- "text": "TLC exhausts Schema.tla (create, ensure, alter create/drop/rename, rename table, view, drop with the code's preconditions; foreign-key link bookkeeping transcribed from meta.go) over all request sequences of length <=3 from the empty database and <=2 from databases with cross, mutual and self references, for: every table has a key, index columns exist, foreign keys point to existing keys, stored Fk/FkToHere/IIndex equal the derived links, BestKey is a key, rows keep the table's shape. The real query.DoAdmin is then driven with systematic neighbourhoods of base schemas and seeded random request sequences (valid and invalid) on heap databases holding rows; after every request the outcome class, GetRoSchema of every table (both fk directions), a scan of every index and the re-parse of every Schema text into a fresh database are validated by TLC against the same specification",
+ "text": "TLC exhausts Schema.tla (create, ensure, alter create/drop/rename, rename table, view, drop with the code's preconditions; foreign-key link bookkeeping transcribed from meta.go) over all request sequences of length <=2 (quick) / <=4 (thorough) from the empty database and <=2 / <=3 from databases with cross, mutual and self references, for: every table has a key, index columns exist, foreign keys point to existing keys, stored Fk/FkToHere/IIndex equal the derived links, BestKey is a key, rows keep the table's shape. The real query.DoAdmin is then driven with systematic neighbourhoods of base schemas and seeded random request sequences (valid and invalid) on heap databases holding rows; after every request the outcome class, GetRoSchema of every table (both fk directions), a scan of every index and the re-parse of every Schema text into a fresh database are validated by TLC against the same specification",
  "note": "trusts TLC, the driver's projection of GetRoSchema / index scans (harness/cmd/schema), the driver-side comparison of the re-parsed schema (logged as resame); requests whose validity depends on stored rows or that the documentation leaves open are accepted with either outcome; BestKey choice is not prescribed; small-scope bounds in evidence",
  "technique": "TLA+ model checking (TLC) + trace validation of real admin request sequences",
 }
@@ -156,8 +156,10 @@ def design(ctx):
     else:
         ctx.tlc_mc("MC_Schema.tla", "Schema_quick.cfg", workers=w, timeout=900)
     # anti-vacuity: the deviations of the code must violate the link invariant in the model
+    # (quick: F9 only, every JVM start costs seconds)
     ctx.tlc_mc("MC_Schema.tla", "Schema_dev_f9.cfg", workers=2, timeout=600, expect_violation="InvLinks", count=False)
-    ctx.tlc_mc("MC_Schema.tla", "Schema_dev_iidx.cfg", workers=2, timeout=600, expect_violation="InvLinks", count=False)
+    if ctx.thorough():
+        ctx.tlc_mc("MC_Schema.tla", "Schema_dev_iidx.cfg", workers=2, timeout=600, expect_violation="InvLinks", count=False)
 
 
 def conformance(ctx):
@@ -167,7 +169,7 @@ def conformance(ctx):
     if ctx.thorough():
         args = [trace, 600, 100, "pairs"]
     else:
-        args = [trace, 40, 30]
+        args = [trace, 25, 15]
     rc, out, summ = ctx.driver(drv, args, timeout=1500)
     if rc != 0 or not summ:
         import vlib
